@@ -366,6 +366,8 @@ pub enum NoiseMode {
     Random(u64),
     /// only the k-th ignorable bit of the message is set
     Single(u32),
+    /// every padding byte has this value, reserved bits are zero (what the encoder's custom-padding option produces)
+    PadOnly(u8),
 }
 
 pub struct Noise {
@@ -414,6 +416,7 @@ impl Noise {
                     0
                 }
             }
+            NoiseMode::PadOnly(_) => 0,
         };
         self.bits_seen += nbits;
         self.bits_set += v.count_ones();
@@ -421,6 +424,15 @@ impl Noise {
     }
     pub fn byte(&mut self) -> u8 {
         self.bits(8) as u8
+    }
+    /// a padding byte (attribute padding or padding between PASSWORD-ALGORITHMS entries)
+    pub fn pad(&mut self) -> u8 {
+        if let NoiseMode::PadOnly(v) = self.mode {
+            self.bits_seen += 8;
+            self.bits_set += v.count_ones();
+            return v;
+        }
+        self.byte()
     }
 }
 
@@ -571,7 +583,7 @@ pub fn ref_encode(msg: &RMsg, noise: &mut Noise) -> Encoded {
                     v.extend_from_slice(&e);
                     if i + 1 < list.len() {
                         for _ in 0..p {
-                            v.push(noise.byte());
+                            v.push(noise.pad());
                         }
                     }
                 }
@@ -654,7 +666,7 @@ pub fn ref_encode(msg: &RMsg, noise: &mut Noise) -> Encoded {
         out.extend_from_slice(&value);
         let p = pad4(value.len());
         for _ in 0..p {
-            out.push(noise.byte());
+            out.push(noise.pad());
         }
         tlvs.push(Tlv {
             typ,
